@@ -863,7 +863,9 @@ func (o *Object) ordinaryToPrimitiveNumber() Value {
 		return v
 	}
 
-	panic(o.runtime.NewTypeError("Could not convert %v to primitive", o.self))
+	// do not format o.self with %v: for a wrapped Go value that prints (and for cyclic Go data never stops
+	// printing) the wrapped data
+	panic(o.runtime.NewTypeError("Could not convert [object %s] to primitive", o.self.className()))
 }
 
 func (o *Object) ordinaryToPrimitiveString() Value {
@@ -875,7 +877,7 @@ func (o *Object) ordinaryToPrimitiveString() Value {
 		return v
 	}
 
-	panic(o.runtime.NewTypeError("Could not convert %v (%T) to primitive", o.self, o.self))
+	panic(o.runtime.NewTypeError("Could not convert [object %s] (%T) to primitive", o.self.className(), o.self))
 }
 
 func (o *Object) tryExoticToPrimitive(hint Value) Value {
